@@ -421,6 +421,17 @@ class EndToEnd(EnumContract):
                     self._check_transformed(p0, pt, rd, cd, bad)
                     if len(dims) == 2:
                         self._check_merge(pt, dims, rs, weighted, tr, bad)
+                if len(dims) == 2:
+                    # column subtotals: the same merge-equivalence on the transposed problem
+                    tdims = [dims[1], dims[0]]
+                    trs_ = [dict(a=[r["a"][1], r["a"][0]], w=r["w"]) for r in rs]
+                    ttr = {}
+                    if "rows_dimension" in tr:
+                        ttr["columns_dimension"] = tr["rows_dimension"]
+                    if "columns_dimension" in tr:
+                        ttr["rows_dimension"] = tr["columns_dimension"]
+                    ptT = self._cube(tdims, trs_, weighted, ttr).partitions[0]
+                    self._check_merge(ptT, tdims, trs_, weighted, ttr, bad)
             except Exception as e:
                 bad.add("transform-invariance:exception:%s" % type(e).__name__)
         return sorted(bad)
